@@ -33,8 +33,10 @@ type prog struct {
 	Boom    bool           `json:"boom,omitempty"`     // vcl_recv restarts URLs under /boom unconditionally: the request ends in the restart-limit error
 }
 type reqSpec struct {
-	URL string `json:"url"`
-	TTL string `json:"ttl"` // origin freshness class: "3600" | "0" | "none"
+	URL  string `json:"url"`
+	TTL  string `json:"ttl"`            // origin freshness class: "3600" | "0" | "none"
+	Host string `json:"host,omitempty"` // "" = example.com; the host is part of the default cache key
+	Hdr  string `json:"hdr,omitempty"`  // value of a request header that is no part of the cache key
 }
 type scase struct {
 	Prog prog      `json:"prog"`
@@ -83,11 +85,11 @@ func deviations() []act {
 func entryReqs(branch string) []reqSpec {
 	switch branch {
 	case "hit":
-		return []reqSpec{{"/a", "3600"}, {"/a", "3600"}}
+		return []reqSpec{{URL: "/a", TTL: "3600"}, {URL: "/a", TTL: "3600"}}
 	case "pass":
-		return []reqSpec{{"/pass/a", "3600"}}
+		return []reqSpec{{URL: "/pass/a", TTL: "3600"}}
 	}
-	return []reqSpec{{"/a", "3600"}}
+	return []reqSpec{{URL: "/a", TTL: "3600"}}
 }
 
 func gen(g *fw.GenCtx) {
@@ -198,7 +200,22 @@ func gen(g *fw.GenCtx) {
 					}
 					nh++
 					for _, p := range progs {
-						emit(scase{Prog: p, Reqs: []reqSpec{{u1, t}, {u2, t}, {u3, t}}})
+						emit(scase{Prog: p, Reqs: []reqSpec{{URL: u1, TTL: t}, {URL: u2, TTL: t}, {URL: u3, TTL: t}}})
+					}
+				}
+			}
+		}
+	}
+	// what the default cache key is made of: the same path on two hosts are two objects, a request header
+	// that vcl_hash does not add makes no difference
+	{
+		type hu struct{ h, u, x string }
+		opts := []hu{{"", "/a", ""}, {"other.example.com", "/a", ""}, {"", "/a", "variant-2"}, {"other.example.com", "/a?x=1", ""}, {"EXAMPLE.com", "/a", ""}}
+		for _, r1 := range opts[:3] {
+			for _, r2 := range opts {
+				for _, r3 := range opts {
+					for _, p := range []prog{{Acts: map[string]act{}, PassURL: true}, {Acts: map[string]act{"hash": {Kind: "return", Arg: "hash"}}, PassURL: true}} {
+						emit(scase{Prog: p, Reqs: []reqSpec{{URL: r1.u, TTL: "3600", Host: r1.h, Hdr: r1.x}, {URL: r2.u, TTL: "3600", Host: r2.h, Hdr: r2.x}, {URL: r3.u, TTL: "3600", Host: r3.h, Hdr: r3.x}}})
 					}
 				}
 			}
@@ -239,7 +256,7 @@ func gen(g *fw.GenCtx) {
 		for _, seq := range [][]string{{"/a", "/boom", "/a"}, {"/boom", "/a", "/a"}, {"/a", "/a", "/boom"}, {"/a", "/boom/x", "/b"}} {
 			var reqs []reqSpec
 			for _, u := range seq {
-				reqs = append(reqs, reqSpec{u, t})
+				reqs = append(reqs, reqSpec{URL: u, TTL: t})
 			}
 			emit(scase{Prog: prog{Acts: map[string]act{}, PassURL: true, Boom: true}, Reqs: reqs})
 			emit(scase{Prog: prog{Acts: map[string]act{"deliver": {Kind: "restart", Guard: "==0"}}, PassURL: true, Boom: true}, Reqs: reqs})
@@ -248,7 +265,7 @@ func gen(g *fw.GenCtx) {
 	for _, seq := range [][]string{{"/rate", "/boom", "/rate"}, {"/boom", "/rate", "/rate"}, {"/rate", "/rate", "/boom"}} {
 		var reqs []reqSpec
 		for _, u := range seq {
-			reqs = append(reqs, reqSpec{u, "0"})
+			reqs = append(reqs, reqSpec{URL: u, TTL: "0"})
 		}
 		emit(scase{Prog: prog{Acts: map[string]act{}, Boom: true}, Reqs: reqs, Rate: true})
 	}
@@ -257,7 +274,7 @@ func gen(g *fw.GenCtx) {
 		for _, n := range []int{2, 3} {
 			var reqs []reqSpec
 			for k := 0; k < n; k++ {
-				reqs = append(reqs, reqSpec{"/a", "3600"})
+				reqs = append(reqs, reqSpec{URL: "/a", TTL: "3600"})
 			}
 			emit(scase{Prog: prog{Acts: map[string]act{"fetch": fa}, PassURL: true}, Reqs: reqs})
 		}
@@ -266,7 +283,7 @@ func gen(g *fw.GenCtx) {
 	for n := 1; n <= 3; n++ {
 		var reqs []reqSpec
 		for k := 0; k < n; k++ {
-			reqs = append(reqs, reqSpec{"/rate", "0"})
+			reqs = append(reqs, reqSpec{URL: "/rate", TTL: "0"})
 		}
 		emit(scase{Prog: prog{Acts: map[string]act{}}, Reqs: reqs, Rate: true})
 	}
@@ -396,7 +413,7 @@ func guardTrue(g string, restarts int) bool {
 func simulate(p prog, rq reqSpec, cm cacheModel) expect {
 	var e expect
 	e.hitFinal = -1
-	key := rq.URL
+	key := strings.ToLower(rq.Host) + rq.URL // host names are case-insensitive
 	scope := "recv"
 	passing := false
 	for steps := 0; steps < 100; steps++ {
@@ -574,8 +591,15 @@ func runCase(oc *fw.Outcome, c scase) {
 		dbg := &nopDebugger{}
 		it.Debugger = dbg
 		rec := httptest.NewRecorder()
-		req := httptest.NewRequest("GET", "http://example.com"+rq.URL, nil)
+		host := rq.Host
+		if host == "" {
+			host = "example.com"
+		}
+		req := httptest.NewRequest("GET", "http://"+host+rq.URL, nil)
 		req.Header.Set("X-Origin-TTL", rq.TTL)
+		if rq.Hdr != "" {
+			req.Header.Set("X-Variant", rq.Hdr)
+		}
 		exp := simulate(c.Prog, rq, cm)
 		detail := func() map[string]any {
 			return map[string]any{"vcl": src, "requests": c.Reqs, "request_index": ri, "expected_flow": strings.Join(exp.flow, ">"), "expected_restarts": exp.restarts,
